@@ -22,7 +22,7 @@ for p in props:
         "level_note": mod.LEVEL_NOTE,
         "technique": getattr(mod, "TECHNIQUE", "Lean 4 proof over hand-written model + differential correspondence"),
     })
-hooks_commits = []
+hooks_commits = ["bea94a7"]  # parsing::verif_pair_tree (crates/tx3-lang/src/parsing.rs), check-cfg lint entry in crates/tx3-lang/Cargo.toml
 m = {
     "version": 1,
     "setup_cmd": "./setup.sh",
@@ -30,7 +30,7 @@ m = {
               "baseline_off_cmd": "cd /repo && cargo test --workspace --no-fail-fast --offline", "source_commits": hooks_commits, "add_only": True},
     "engines": [{"name": "lean4-model+correspondence", "path": "/verif/lean, /verif/harness, /verif/translator, /verif/vlib",
                  "serves_properties": claimed,
-                 "kind_free_text": "Lean 4 model and theorems; Rust translator regenerating tables from source; Rust differential harness + compiled Lean driver; Python orchestration"}],
+                 "kind_free_text": "Lean 4 model and theorems; Python translator regenerating the Lean grammar from tx3.pest; Rust differential harness + compiled Lean driver; Python orchestration"}],
     "checks": checks,
     "notes": "Every check: translator -> lake build of the property's theorems -> #print axioms audit -> harness built against /repo's working tree -> generated cases through the real crates -> Lean driver judges correspondence (model vs code) and spec (code vs property). See DESIGN.md.",
     "not_applicable": [{"property_id": p["id"], "reason": "not yet claimed: check under construction (DESIGN.md §9 build order); the technique applies and will be used"} for p in props if p["id"] not in claimed],
